@@ -421,6 +421,52 @@ impl World for RWorld {
                 }
             }
             "note" if t.len() == 2 => "ok".into(),
+            // bulk ops: `sendn <who> <ch> <count> <tag>` submits count 5-byte messages (tag, i as u32 LE);
+            // `recvn <who> <ch> <max>` drains up to max messages and answers their count and a checksum
+            "sendn" if t.len() == 5 => {
+                let ch = num!(t[2], u8);
+                let n = num!(t[3], u32);
+                let tag = num!(t[4], u8);
+                for i in 0..n {
+                    let mut m = vec![tag];
+                    m.extend(i.to_le_bytes());
+                    match parse_who(t[1]) {
+                        Some(Who::Client(h)) => match self.clients.get_mut(&h) {
+                            None => return BAD.into(),
+                            Some(c) => c.send_message(ch, m),
+                        },
+                        Some(Who::SConn(id)) => srv!().send_message(id, ch, m),
+                        _ => return BAD.into(),
+                    }
+                }
+                "ok".into()
+            }
+            "recvn" if t.len() == 4 => {
+                let ch = num!(t[2], u8);
+                let max = num!(t[3], u64);
+                let mut n = 0u64;
+                let mut sum: u64 = 0;
+                while n < max {
+                    let m = match parse_who(t[1]) {
+                        Some(Who::Client(h)) => match self.clients.get_mut(&h) {
+                            None => return BAD.into(),
+                            Some(c) => c.receive_message(ch),
+                        },
+                        Some(Who::SConn(id)) => srv!().receive_message(id, ch),
+                        _ => return BAD.into(),
+                    };
+                    match m {
+                        None => break,
+                        Some(m) => {
+                            n += 1;
+                            for b in m.iter() {
+                                sum = (sum * 31 + *b as u64) % 1_000_000_007;
+                            }
+                        }
+                    }
+                }
+                format!("msgs {} {}", n, sum)
+            }
             "enc" => match parse_term(&t[1..]) {
                 None => BAD.into(),
                 Some(p) => {
